@@ -157,8 +157,8 @@ class Lockstep:
             elif e[0] == "call": gp, got, named = e[1], [(None, x) for x in e[2]], False
             else: self.bad("%s: %s for a struct" % (where, e[0])); return
             if want and gp != want: self.bad("%s: struct literal path %s, the generated path without generics is %s" % (where, "::".join(gp[1]), "::".join(want[1])))
-            if item is not None and item["kind"] == "struct": self.fields(where, named, got, d[1], item["fields"], item["form"])
-            else: self.fields(where, named, got, d[1], None, None)
+            if item is not None and item["kind"] == "struct": self.fields("%s(type #%d)" % (where, i), named, got, d[1], item["fields"], item["form"])
+            else: self.fields("%s(type #%d)" % (where, i), named, got, d[1], None, None)
             return
         if k == "variant":
             if e[0] == "path" and e[2] == ["None"] and t["path"] == ["Option"]: return
